@@ -342,9 +342,11 @@ def tree(outdir, orchestration_only=False):
 class Driver:
     TOOL = 3
 
-    def __init__(self, rec):
+    def __init__(self, rec, optimize=0):
         self.rec = rec
-        self.orch = repoimport.load_orchestrator("orch_c19")
+        # optimize=1: the script compiled the way `python -O batchie.py` (or PYTHONOPTIMIZE=1 in the job environment)
+        # runs it - assert statements are stripped
+        self.orch = repoimport.load_orchestrator("orch_c19", optimize=optimize)
         self.script = self.orch.__file__
         self.sim = None
         m = sys.monitoring
@@ -404,12 +406,12 @@ class Driver:
             return ("crashed", str(c))
         except Stuck as c:
             return ("no-progress", str(c))
-        except RuntimeError as e:
+        except Exception as e:
+            # the operator reads the message, not the exception class: whatever is raised, a message that names a
+            # directory to delete is followed
             msg = str(e)
             if "Consider deleting this directory" in msg:
                 return ("operator", msg.split(": ")[-1].strip())
-            return ("error", repr(e))
-        except Exception as e:
             return ("error", "%s: %s" % (type(e).__name__, e))
         finally:
             sys.argv = old
@@ -612,7 +614,9 @@ def configurations(tier, rng):
 
 def run_shard(rec, tier, seed, shard, nshards):
     rng = kit.rng_for(seed, NUM, shard)
-    drv = Driver(rec)
+    stripped = bool(shard % 3 == 1 or not __debug__)
+    drv = Driver(rec, optimize=1 if stripped else 0)
+    rec.count("shards_with_the_script_compiled_as_under_python_O" if stripped else "shards_with_the_script_compiled_normally")
     cfgs = configurations(tier, rng)
     try:
         with kit.scratch_dir("vf-c19-", fast=True) as tmp:
@@ -736,7 +740,9 @@ def subprocess_scenarios(rec, rng, shard, nshards):
         {"mode": "retrospective", "plates": 5, "batch": 3, "n_chains": 2, "n_chunks": 1, "order_seed": 6},
         {"mode": "prospective", "plates": 6, "batch": 3, "invocations": 2, "n_chains": 1, "n_chunks": 2, "order_seed": 6},
         {"mode": "retrospective", "plates": 3, "batch": 2, "n_chains": 1, "n_chunks": 1, "order_seed": 7, "outdir_name": "run[1]"},
+        {"mode": "retrospective", "plates": 4, "batch": 2, "n_chains": 1, "n_chunks": 1, "order_seed": 8, "python_O": True},
     ]
+    cfgs[1]["python_O"] = True
 
     def invoke(root, cfg, kill_at):
         env = dict(os.environ)
@@ -744,7 +750,7 @@ def subprocess_scenarios(rec, rng, shard, nshards):
         if os.path.exists(env["VF_C19_COUNTER"]):
             os.remove(env["VF_C19_COUNTER"])
         LogSim(root, cfg, env["VF_C19_LOG"]).operator_brings_lab_results()
-        p = subprocess.run([sys.executable, "-B", script, "--mode", cfg["mode"], "--screen", os.path.join(root, "input.screen.h5"), "--batch-size", str(cfg["batch"]), "--outdir", os.path.join(root, cfg.get("outdir_name", "out")), "--n_chains", str(cfg["n_chains"])], env=env, stdout=subprocess.PIPE, stderr=subprocess.PIPE, timeout=300)
+        p = subprocess.run([sys.executable, "-B"] + (["-O"] if cfg.get("python_O") else []) + [script, "--mode", cfg["mode"], "--screen", os.path.join(root, "input.screen.h5"), "--batch-size", str(cfg["batch"]), "--outdir", os.path.join(root, cfg.get("outdir_name", "out")), "--n_chains", str(cfg["n_chains"])], env=env, stdout=subprocess.PIPE, stderr=subprocess.PIPE, timeout=300)
         hits = int(open(env["VF_C19_COUNTER"]).read()) if os.path.exists(env["VF_C19_COUNTER"]) else 0
         err = p.stderr.decode("utf-8", "replace")
         if p.returncode == 0:
